@@ -10,3 +10,7 @@ package verifhook
 // At marks a named point between two durable writes or at an interleaving
 // point. It does nothing unless built with the "verif" tag.
 func At(string) {}
+
+// AtN is like At but carries an integer (e.g. the number of tasks about to be started). It does
+// nothing unless built with the "verif" tag.
+func AtN(string, int) {}
